@@ -28,8 +28,7 @@ self.size.val % 8 == 0,
 self.value@.len() <= 0x100_0000,
 self.offset.val <= old(file)@.bytes.len(),
 self.offset.val + self.size.val <= 0x7fff_ffff_ffff_ffff,
-enc_len((self.size.val / 8) as nat) + enc_len(self.value@.len()) + self.value@.len() <= self.size.val,
-self.value@.len() <= old(file)@.chunk
+enc_len((self.size.val / 8) as nat) + enc_len(self.value@.len()) + self.value@.len() <= self.size.val
 @ensures
 okh(old(file)@, final(file)@, r), final(file).piece_mgr == old(file).piece_mgr,
 r is Ok ==> val_used_at(final(file)@.bytes, self.offset.val as int, self.size.val as nat, self.value@),
@@ -81,5 +80,409 @@ old(file)@.bytes.len() >= 24
 @ensures
 okh(old(file)@, final(file)@, r), same_but_pos(old(file)@, final(file)@), final(file).piece_mgr == old(file).piece_mgr,
 r is Ok ==> rd(old(file)@.bytes, 0, 8) == sig_v() && rd(old(file)@.bytes, 8, 8) == signature2@
+@end
+
+@raw
+verus! {
+/// slot size write_piece asks for when storing `value`
+pub open spec fn val_need(value: Seq<u8>) -> nat {
+    let p = enc_len(value.len()) + value.len();
+    roundup_spec(enc_len(((p + 7) / 8) as nat) + p)
+}
+pub open spec fn val_pre(b: Seq<u8>, pm: PieceMgr, w: HeapW, is_new: bool, off: nat) -> bool {
+    heap_ok(b, pm, w) && (!is_new ==> w.slots.dom().contains(off) && w.slots[off].c is Val)
+}
+pub open spec fn val_at(b: Seq<u8>, pm: PieceMgr, w: HeapW, off: nat) -> bool {
+    heap_ok(b, pm, w) && w.slots.dom().contains(off) && w.slots[off].c is Val
+}
+} // verus!
+@end
+
+# `is_valid_value` iterates `for &sz in &REC_SIZE_ARY` (rejected by Verus); it only asserts — proved by Kani (kani_piece.rs:u3_is_valid_*)
+@fn src/filedb/inner/val.rs | impl ValuePieceSize | is_valid_value
+@opts assumed proved_by=kani:u3_is_valid_value
+@requires
+is_slot_size(self.val as nat)
+@ensures
+r
+@end
+
+@fn src/filedb/inner/val.rs | impl ValuePiece | with
+@ensures
+r.offset == offset, r.size == size, r.value == value
+@end
+
+@fn src/filedb/inner/val.rs | impl ValuePiece | with_value
+@ensures
+r.value@ == value@
+@end
+
+@fn src/filedb/inner/val.rs | impl VarFileValueCache | read_piece
+@serves C09 C15
+@requires
+offset.val != 0, exists|w: HeapW| #[trigger] val_at(old(self).0@.bytes, old(self).0.piece_mgr, w, offset.val as nat)
+@ensures
+okh(old(self).0@, final(self).0@, r), same_but_pos(old(self).0@, final(self).0@), final(self).0.piece_mgr == old(self).0.piece_mgr,
+r is Ok ==> forall|w: HeapW| #[trigger] val_at(old(self).0@.bytes, old(self).0.piece_mgr, w, offset.val as nat) ==>
+    r->Ok_0.offset == offset && r->Ok_0.size.val == w.slots[offset.val as nat].size && SlotC::Val(r->Ok_0.value@) == w.slots[offset.val as nat].c
+@entry
+let ghost b0 = old(self).0@.bytes;
+let ghost pm = old(self).0.piece_mgr;
+let ghost o = offset.val as nat;
+let ghost w0: HeapW = choose|w: HeapW| #[trigger] val_at(b0, pm, w, o);
+proof {
+    assert(slot_ok(b0, o, w0.slots[o]));
+    lemma_slot_bounds(b0, o, w0.slots[o]); lemma_slot_elim(b0, o, w0.slots[o]);
+    lemma_val_used_decodes(b0, o as int, w0.slots[o].size, w0.slots[o].c->Val_0);
+}
+@exit
+proof {
+    if r__ is Ok {
+        assert forall|w: HeapW| #[trigger] val_at(b0, pm, w, o) implies
+            r__->Ok_0.offset == offset && r__->Ok_0.size.val == w.slots[o].size && SlotC::Val(r__->Ok_0.value@) == w.slots[o].c by {
+            assert(slot_ok(b0, o, w.slots[o]));
+            lemma_slot_elim(b0, o, w.slots[o]);
+            lemma_val_used_decodes(b0, o as int, w.slots[o].size, w.slots[o].c->Val_0);
+        }
+    }
+}
+@end
+
+@fn src/filedb/inner/val.rs | impl VarFileValueCache | read_piece_only_size
+@serves C17
+@requires
+offset.val != 0, exists|w: HeapW| #[trigger] heap_ok(old(self).0@.bytes, old(self).0.piece_mgr, w) && w.slots.dom().contains(offset.val as nat)
+@ensures
+okh(old(self).0@, final(self).0@, r), same_but_pos(old(self).0@, final(self).0@), final(self).0.piece_mgr == old(self).0.piece_mgr,
+r is Ok ==> forall|w: HeapW| #[trigger] heap_ok(old(self).0@.bytes, old(self).0.piece_mgr, w) && w.slots.dom().contains(offset.val as nat) ==> r->Ok_0.val == w.slots[offset.val as nat].size
+@entry
+let ghost b0 = old(self).0@.bytes;
+let ghost pm = old(self).0.piece_mgr;
+let ghost o = offset.val as nat;
+let ghost w0: HeapW = choose|w: HeapW| #[trigger] heap_ok(b0, pm, w) && w.slots.dom().contains(o);
+proof {
+    assert(slot_ok(b0, o, w0.slots[o]));
+    lemma_slot_bounds(b0, o, w0.slots[o]); lemma_slot_size_decodes(b0, o, w0.slots[o]);
+}
+@exit
+proof {
+    if r__ is Ok {
+        assert forall|w: HeapW| #[trigger] heap_ok(b0, pm, w) && w.slots.dom().contains(o) implies r__->Ok_0.val == w.slots[o].size by {
+            assert(slot_ok(b0, o, w.slots[o]));
+            lemma_slot_size_decodes(b0, o, w.slots[o]);
+        }
+    }
+}
+@end
+
+@fn src/filedb/inner/vfile.rs | impl VarFile | seek_skip_to_piece_value
+@requires
+rec_size_ok(old(self)@.bytes, offset.val as int), offset.val <= old(self)@.bytes.len()
+@ensures
+okh(old(self)@, final(self)@, r), same_but_pos(old(self)@, final(self)@), final(self).piece_mgr == old(self).piece_mgr,
+r is Ok ==> final(self)@.pos == rec_len_pos(old(self)@.bytes, offset.val as int) && r->Ok_0.val == final(self)@.pos
+@entry
+proof { axiom_vu64_dlen(old(self)@.bytes[offset.val as int]); }
+@end
+
+@fn src/filedb/inner/val.rs | impl VarFileValueCache | read_piece_only_value
+@serves C01 C15
+@requires
+offset.val != 0, exists|w: HeapW| #[trigger] val_at(old(self).0@.bytes, old(self).0.piece_mgr, w, offset.val as nat)
+@ensures
+okh(old(self).0@, final(self).0@, r), same_but_pos(old(self).0@, final(self).0@), final(self).0.piece_mgr == old(self).0.piece_mgr,
+r is Ok ==> forall|w: HeapW| #[trigger] val_at(old(self).0@.bytes, old(self).0.piece_mgr, w, offset.val as nat) ==> SlotC::Val(r->Ok_0@) == w.slots[offset.val as nat].c
+@entry
+let ghost b0 = old(self).0@.bytes;
+let ghost pm = old(self).0.piece_mgr;
+let ghost o = offset.val as nat;
+let ghost w0: HeapW = choose|w: HeapW| #[trigger] val_at(b0, pm, w, o);
+proof {
+    assert(slot_ok(b0, o, w0.slots[o]));
+    lemma_slot_bounds(b0, o, w0.slots[o]); lemma_slot_elim(b0, o, w0.slots[o]);
+    lemma_val_used_decodes(b0, o as int, w0.slots[o].size, w0.slots[o].c->Val_0);
+}
+@exit
+proof {
+    if r__ is Ok {
+        assert forall|w: HeapW| #[trigger] val_at(b0, pm, w, o) implies SlotC::Val(r__->Ok_0@) == w.slots[o].c by {
+            assert(slot_ok(b0, o, w.slots[o]));
+            lemma_slot_elim(b0, o, w.slots[o]);
+            lemma_val_used_decodes(b0, o as int, w.slots[o].size, w.slots[o].c->Val_0);
+        }
+    }
+}
+@end
+
+@fn src/filedb/inner/val.rs | impl VarFileValueCache | read_piece_only_value_length
+@serves C17
+@requires
+offset.val != 0, exists|w: HeapW| #[trigger] val_at(old(self).0@.bytes, old(self).0.piece_mgr, w, offset.val as nat)
+@ensures
+okh(old(self).0@, final(self).0@, r), same_but_pos(old(self).0@, final(self).0@), final(self).0.piece_mgr == old(self).0.piece_mgr,
+r is Ok ==> forall|w: HeapW| #[trigger] val_at(old(self).0@.bytes, old(self).0.piece_mgr, w, offset.val as nat) ==> r->Ok_0.val == w.slots[offset.val as nat].c->Val_0.len()
+@entry
+let ghost b0 = old(self).0@.bytes;
+let ghost pm = old(self).0.piece_mgr;
+let ghost o = offset.val as nat;
+let ghost w0: HeapW = choose|w: HeapW| #[trigger] val_at(b0, pm, w, o);
+proof {
+    assert(slot_ok(b0, o, w0.slots[o]));
+    lemma_slot_bounds(b0, o, w0.slots[o]); lemma_slot_elim(b0, o, w0.slots[o]);
+    lemma_val_used_decodes(b0, o as int, w0.slots[o].size, w0.slots[o].c->Val_0);
+}
+@exit
+proof {
+    if r__ is Ok {
+        assert forall|w: HeapW| #[trigger] val_at(b0, pm, w, o) implies r__->Ok_0.val == w.slots[o].c->Val_0.len() by {
+            assert(slot_ok(b0, o, w.slots[o]));
+            lemma_slot_elim(b0, o, w.slots[o]);
+            lemma_val_used_decodes(b0, o as int, w.slots[o].size, w.slots[o].c->Val_0);
+        }
+    }
+}
+@end
+
+@fn src/filedb/inner/val.rs | impl VarFileValueCache | delete_piece
+@serves C06
+@requires
+exists|w: HeapW| #[trigger] val_at(old(self).0@.bytes, old(self).0.piece_mgr, w, offset.val as nat)
+@ensures
+okh(old(self).0@, final(self).0@, r), final(self).0.piece_mgr == old(self).0.piece_mgr,
+r is Ok ==> forall|w: HeapW| #[trigger] val_at(old(self).0@.bytes, old(self).0.piece_mgr, w, offset.val as nat) ==>
+    heap_ok(final(self).0@.bytes, old(self).0.piece_mgr, w_push(w, offset.val as nat)) && r->Ok_0.val == w.slots[offset.val as nat].size,
+r is Ok ==> final(self).0@.unflushed && final(self).0@.unsynced
+@entry
+let ghost b0 = old(self).0@.bytes;
+let ghost pm = old(self).0.piece_mgr;
+let ghost o = offset.val as nat;
+let ghost w0: HeapW = choose|w: HeapW| #[trigger] val_at(b0, pm, w, o);
+proof {
+    assert(slot_ok(b0, o, w0.slots[o]));
+    lemma_slot_bounds(b0, o, w0.slots[o]); lemma_slot_size_decodes(b0, o, w0.slots[o]);
+}
+@before-call push_free_piece_list 1
+proof { assert(can_push(self.0@.bytes, pm, w0, o, old_piece_size.val as nat)); }
+@exit
+proof {
+    if r__ is Ok {
+        assert forall|w: HeapW| #[trigger] val_at(b0, pm, w, o) implies
+            heap_ok(self.0@.bytes, pm, w_push(w, o)) && r__->Ok_0.val == w.slots[o].size by {
+            assert(slot_ok(b0, o, w.slots[o]));
+            lemma_slot_size_decodes(b0, o, w.slots[o]);
+            assert(can_push(b0, pm, w, o, r__->Ok_0.val as nat));
+        }
+    }
+}
+@end
+
+@raw
+verus! {
+pub proof fn lemma_roundup_slot(x: nat)
+    requires 1 <= x <= 0x7fff_ff00
+    ensures is_slot_size(roundup_spec(x)), roundup_spec(x) >= x, roundup_spec(x) % 8 == 0, roundup_spec(x) <= x + 128, roundup_spec(x) >= 16
+{}
+
+pub proof fn lemma_slot_bounds_class(need: nat)
+    requires is_slot_size(need)
+    ensures 0 <= class_idx(need) < 16
+{}
+/// frame_outside on a window inside the old file is a frame3
+pub proof fn lemma_frame_outside_3(b0: Seq<u8>, b1: Seq<u8>, o: int, n: int)
+    requires frame_outside(b0, b1, o, n), 0 <= o, 0 <= n, o + n <= b0.len()
+    ensures frame3(b0, b1, o, n, o, n, -8)
+{}
+
+/// heap-level result of write_piece for one witness, from the byte-level facts collected along the execution
+pub proof fn lemma_write_post(b0: Seq<u8>, ba: Seq<u8>, bb: Seq<u8>, b1: Seq<u8>, pm: PieceMgr, w: HeapW, is_new: bool, off: nat,
+        c: SlotC, need: nat, fo: nat, ro: nat, rs: nat)
+    requires
+        heap_ok(b0, pm, w), !is_new ==> w.slots.dom().contains(off) && !(w.slots[off].c is Free),
+        !(c is Free), is_slot_size(need), need <= u32::MAX,
+        !is_new ==> need > w.slots[off].size && heap_ok(ba, pm, w_push(w, off)),
+        is_new ==> ba == b0,
+        ba.len() == b0.len(),
+        pop_post(ba, bb, pm, if is_new { w } else { w_push(w, off) }, need, fo),
+        fo != 0 ==> ro == fo && rs == rec_size(bb, fo as int),
+        fo == 0 ==> ro == ba.len() && rs == need,
+        slot_content_at(b1, ro, rs, c),
+        frame_outside(bb, b1, ro as int, rs as int),
+        b1.len() <= 0x3fff_ffff_ffff_ffff,
+    ensures ({
+        let t = w_write(w, b0.len(), is_new, off, need, c);
+        heap_ok(b1, pm, t.0) && ro == t.1 && rs == t.2
+    })
+{
+    let w1 = if is_new { w } else { w_push(w, off) };
+    let cl = class_idx(need);
+    let l = w1.lists[cl];
+    let k = pop_idx(w1, need);
+    if !is_new { assert(!(need <= w.slots[off].size)); }
+    assert(w_write(w, b0.len(), is_new, off, need, c) == w_alloc(w1, b0.len(), need, c));
+    if k < l.len() {
+        let w2 = w_unlink(w1, cl, k);
+        assert(heap_ok(bb, pm, w2));
+        lemma_slot_bounds_class(need);
+        if need >= 1024 { lemma_ff_range(w1.slots, w1.lists[15], need, 0); }
+        assert(list_ok(w1.slots, l, cl));
+        lemma_list_member(w1.slots, l, cl, k);
+        if k > 0 { lemma_list_member(w1.slots, l, cl, k - 1); }
+        assert(w2.slots.dom().contains(fo));
+        assert(w2.slots[fo].c is Cleared);
+        assert(slot_ok(bb, fo, w2.slots[fo]));
+        lemma_slot_size_decodes(bb, fo, w2.slots[fo]);
+        lemma_slot_bounds(bb, fo, w2.slots[fo]);
+        assert(rs == w2.slots[fo].size);
+        assert(w2.slots[fo].size == w1.slots[fo].size);
+        lemma_frame_outside_3(bb, b1, fo as int, rs as int);
+        lemma_slot_intro(b1, fo, SlotW { size: rs, c: c });
+        lemma_set(bb, b1, pm, w2, fo, c);
+    } else {
+        assert(bb == ba);
+        lemma_tiling_len(ba.len(), w1.slots);
+        lemma_slot_intro(b1, ba.len(), SlotW { size: need, c: c });
+        lemma_append(ba, b1, pm, w1, SlotW { size: need, c: c });
+    }
+}
+/// the bytes of slot [o, o+size) hold non-free content `c`
+pub open spec fn slot_content_at(b: Seq<u8>, o: nat, size: nat, c: SlotC) -> bool {
+    match c {
+        SlotC::Val(v) => val_used_at(b, o as int, size, v),
+        SlotC::Key(k, vo, nx) => key_used_at(b, o as int, size, k, vo, nx),
+        SlotC::Free(nx) => free_at(b, o as int, size, nx),
+        SlotC::Cleared => cleared_at(b, o as int, size),
+    }
+}
+/// heap-level result of the overwrite-in-place branch
+pub proof fn lemma_write_inplace(b0: Seq<u8>, b1: Seq<u8>, pm: PieceMgr, w: HeapW, off: nat, c: SlotC, need: nat)
+    requires heap_ok(b0, pm, w), w.slots.dom().contains(off), !(w.slots[off].c is Free), !(c is Free),
+        need <= w.slots[off].size,
+        slot_content_at(b1, off, w.slots[off].size, c),
+        frame_outside(b0, b1, off as int, w.slots[off].size as int),
+    ensures ({
+        let t = w_write(w, b0.len(), false, off, need, c);
+        heap_ok(b1, pm, t.0) && off == t.1 && w.slots[off].size == t.2
+    })
+{
+    assert(slot_ok(b0, off, w.slots[off]));
+    lemma_slot_bounds(b0, off, w.slots[off]);
+    lemma_frame_outside_3(b0, b1, off as int, w.slots[off].size as int);
+    lemma_slot_intro(b1, off, SlotW { size: w.slots[off].size, c: c });
+    lemma_set(b0, b1, pm, w, off, c);
+}
+} // verus!
+@end
+
+@fn src/filedb/inner/val.rs | impl VarFileValueCache | write_piece
+@opts rlimit=150
+@serves C06 C09 C01
+@requires
+piece.value@.len() <= 0x100_0000,
+is_new || piece.offset.val != 0,
+old(self).0@.bytes.len() <= 0x2000_0000_0000_0000,
+exists|w: HeapW| #[trigger] heap_ok(old(self).0@.bytes, old(self).0.piece_mgr, w) && val_pre(old(self).0@.bytes, old(self).0.piece_mgr, w, is_new, piece.offset.val as nat)
+@ensures
+okh(old(self).0@, final(self).0@, r), final(self).0.piece_mgr == old(self).0.piece_mgr,
+r is Ok ==> r->Ok_0.value@ == piece.value@,
+r is Ok ==> forall|w: HeapW| #[trigger] heap_ok(old(self).0@.bytes, old(self).0.piece_mgr, w) && val_pre(old(self).0@.bytes, old(self).0.piece_mgr, w, is_new, piece.offset.val as nat) ==> ({
+    let t = w_write(w, old(self).0@.bytes.len(), is_new, piece.offset.val as nat, val_need(piece.value@), SlotC::Val(piece.value@));
+    heap_ok(final(self).0@.bytes, old(self).0.piece_mgr, t.0) && r->Ok_0.offset.val == t.1 && r->Ok_0.size.val == t.2
+}),
+r is Ok ==> final(self).0@.unflushed && final(self).0@.unsynced
+@entry
+let ghost b0 = old(self).0@.bytes;
+let ghost pm = old(self).0.piece_mgr;
+let ghost off = piece.offset.val as nat;
+let ghost value = piece.value@;
+let ghost need = val_need(value);
+let ghost p = enc_len(value.len()) + value.len();
+let ghost w0: HeapW = choose|w: HeapW| #[trigger] heap_ok(b0, pm, w) && val_pre(b0, pm, w, is_new, off);
+let ghost w10: HeapW = if is_new { w0 } else { w_push(w0, off) };
+let ghost mut ba = b0;
+let ghost mut bb = b0;
+let ghost mut fo: nat = 0;
+proof {
+    lemma_roundup_slot(enc_len(((p + 7) / 8) as nat) + p);
+    lemma_tiling_len(b0.len(), w0.slots);
+    if !is_new {
+        assert(slot_ok(b0, off, w0.slots[off]));
+        lemma_slot_bounds(b0, off, w0.slots[off]); lemma_slot_size_decodes(b0, off, w0.slots[off]);
+    }
+}
+@before-call dat_write_piece_one 1
+proof { lemma_fits(p, old_piece_size.val as nat); }
+@before-return 1
+proof {
+    let b1 = self.0@.bytes;
+    assert forall|w: HeapW| #[trigger] heap_ok(b0, pm, w) && val_pre(b0, pm, w, is_new, off) implies ({
+        let t = w_write(w, b0.len(), is_new, off, need, SlotC::Val(value));
+        heap_ok(b1, pm, t.0) && piece.offset.val == t.1 && piece.size.val == t.2
+    }) by {
+        assert(slot_ok(b0, off, w.slots[off]));
+        lemma_slot_size_decodes(b0, off, w.slots[off]);
+        lemma_write_inplace(b0, b1, pm, w, off, SlotC::Val(value), need);
+    }
+}
+@before-call push_free_piece_list 1
+proof { assert(can_push(self.0@.bytes, pm, w0, off, old_piece_size.val as nat)); }
+@after-call push_free_piece_list 1
+proof { ba = self.0@.bytes; assert(heap_ok(ba, pm, w10)); }
+@before-call pop_free_piece_list 1
+proof { ba = self.0@.bytes; assert(heap_ok(ba, pm, w10)); }
+@after-call pop_free_piece_list 1
+proof {
+    bb = self.0@.bytes; fo = free_piece_offset.val as nat;
+    assert(pop_post(ba, bb, pm, w10, need, fo));
+    let cl = class_idx(need); let k = pop_idx(w10, need);
+    if k < w10.lists[cl].len() {
+        let w2 = w_unlink(w10, cl, k);
+        assert(heap_ok(bb, pm, w2));
+        assert(w2.slots.dom().contains(fo));
+        assert(slot_ok(bb, fo, w2.slots[fo]));
+        lemma_slot_size_decodes(bb, fo, w2.slots[fo]);
+        lemma_slot_bounds(bb, fo, w2.slots[fo]);
+        lemma_fits(p, w2.slots[fo].size);
+    } else {
+        lemma_fits(p, need);
+    }
+}
+@exit
+proof {
+    if r__ is Ok {
+        let b1 = self.0@.bytes;
+        let rp = r__->Ok_0;
+        assert forall|w: HeapW| #[trigger] heap_ok(b0, pm, w) && val_pre(b0, pm, w, is_new, off) implies ({
+            let t = w_write(w, b0.len(), is_new, off, need, SlotC::Val(value));
+            heap_ok(b1, pm, t.0) && rp.offset.val == t.1 && rp.size.val == t.2
+        }) by {
+            if !is_new {
+                assert(slot_ok(b0, off, w.slots[off]));
+                lemma_slot_size_decodes(b0, off, w.slots[off]);
+                assert(can_push(b0, pm, w, off, w.slots[off].size));
+                assert(heap_ok(ba, pm, w_push(w, off)));
+            }
+            let w1 = if is_new { w } else { w_push(w, off) };
+            assert(heap_ok(ba, pm, w1));
+            assert(pop_post(ba, bb, pm, w1, need, fo));
+            lemma_write_post(b0, ba, bb, b1, pm, w, is_new, off, SlotC::Val(value), need, fo, rp.offset.val as nat, rp.size.val as nat);
+        }
+    }
+}
+@end
+
+@fn src/filedb/inner/val.rs | impl VarFileValueCache | add_value_piece
+@serves C01 C06
+@requires
+value@.len() <= 0x100_0000,
+old(self).0@.bytes.len() <= 0x2000_0000_0000_0000,
+exists|w: HeapW| #[trigger] heap_ok(old(self).0@.bytes, old(self).0.piece_mgr, w)
+@ensures
+okh(old(self).0@, final(self).0@, r), final(self).0.piece_mgr == old(self).0.piece_mgr,
+r is Ok ==> r->Ok_0.value@ == value@,
+r is Ok ==> forall|w: HeapW| #[trigger] heap_ok(old(self).0@.bytes, old(self).0.piece_mgr, w) ==> ({
+    let t = w_alloc(w, old(self).0@.bytes.len(), val_need(value@), SlotC::Val(value@));
+    heap_ok(final(self).0@.bytes, old(self).0.piece_mgr, t.0) && r->Ok_0.offset.val == t.1 && r->Ok_0.size.val == t.2
+}),
+r is Ok ==> final(self).0@.unflushed && final(self).0@.unsynced
 @end
 @endmod
